@@ -12,12 +12,12 @@ var ctxRefs = []string{
 	"@contact.channel", "@contact.status", "@contact.id", "@contact.uuid", "@contact.tickets",
 	"@fields.age", "@fields.gender", "@fields.joined", "@fields.state", "@fields.nick", "@fields.score", "@fields",
 	"@results", "@results.color", "@results.color.category", "@results.answer", "@results.age.value", "@results.favorite_color.category_localized",
-	"@results.lookup.extra", "@results.intent.extra", "@results.response_1", "@run.results.answer.input",
+	"@results.lookup.extra", "@results.lookup.extra.ok", "@results.hook.extra", "@results.intent.extra", "@results.response_1", "@run.results.answer.input",
 	"@input", "@input.text", "@input.urn", "@input.channel", "@input.attachments", "@input.created_on", "@input.external_id",
 	"@run", "@run.status", "@run.flow.name", "@run.created_on", "@run.path", "@run.uuid",
 	"@parent", "@parent.results.color", "@parent.contact.name", "@parent.urns.tel", "@parent.fields.age", "@parent.status", "@parent.contact.urn",
 	"@child", "@child.results.answer", "@child.status", "@child.contact", "@child.urns",
-	"@trigger", "@trigger.type", "@trigger.params", "@trigger.params.x", "@trigger.keyword", "@trigger.user", "@trigger.origin",
+	"@trigger", "@trigger.type", "@trigger.params", "@trigger.params.x", "@trigger.params.flag", "@trigger.params.nested.ok", "@trigger.keyword", "@trigger.user", "@trigger.origin",
 	"@resume", "@resume.type", "@resume.dial", "@globals.org_name", "@globals.limit", "@globals.missing", "@globals",
 	"@node.visit_count", "@node.uuid", "@ticket", "@ticket.topic", "@ticket.assignee",
 }
@@ -41,8 +41,8 @@ var exprPool = []string{
 	"@(sum(array(1, \"a\")))", "@(concat(contact.urns, contact.groups))", "@(is_error(1/0))", "@(boolean(input.text))",
 }
 
-var webhookRefs = []string{"@webhook", "@webhook.json", "@webhook.json.count", "@webhook.status", "@webhook.json.name", "@webhook.headers", "@(json(webhook))", "@webhook.json.items[0].tag"}
-var legacyRefs = []string{"@legacy_extra", "@legacy_extra.count", "@legacy_extra.name"}
+var webhookRefs = []string{"@webhook", "@webhook.json", "@webhook.json.ok", "@webhook.json.count", "@webhook.status", "@webhook.json.name", "@webhook.headers", "@(json(webhook))", "@webhook.json.items[0].tag"}
+var legacyRefs = []string{"@legacy_extra", "@legacy_extra.count", "@legacy_extra.name", "@legacy_extra.ok"}
 
 // tmpl draws a template. withWebhook: this template lives in a node after its own webhook call.
 func (g *G) tmpl(withWebhook bool) string {
@@ -50,7 +50,11 @@ func (g *G) tmpl(withWebhook bool) string {
 	parts := []string{}
 	n := 1 + t.Weighted("tparts", 4, 3, 1)
 	for i := 0; i < n; i++ {
-		switch t.Weighted("tpart", 4, 6, 3, 1, 1) {
+		wts := []int{4, 6, 3, 1, 1}
+		if g.P.AllowWebhookAfter {
+			wts = []int{4, 6, 3, 3, 2} // the legacy ways of reading a webhook response are what is under test
+		}
+		switch t.Weighted("tpart", wts...) {
 		case 0:
 			parts = append(parts, []string{"Hi", "Thanks", "Your answer", "bob@nyaruka.com", "100%", "@@twitter", "a @ b", "\"quoted\"", "back\\slash", "línea"}[t.Pick("lit", 10)])
 		case 1:
@@ -247,7 +251,7 @@ func (g *G) genAction(f *FlowSpec, nd *nodeDraft, loc J) J {
 		if a["method"] != "GET" && t.Chance("body", 2, 3) {
 			a["body"] = []string{`{"text": @(json(input.text)), "contact": @(json(contact.uuid))}`, "@(json(object(\"results\", results, \"contact\", contact)))", "plain @contact.name", "@(json(run))", "@(repeat(\"x\", 20000))"}[t.Pick("bodyval", 5)]
 		}
-		if t.Chance("resultname", 2, 3) {
+		if t.Chance("resultname", 2, 3) || g.forceResult {
 			a["result_name"] = g.newResultName()
 		}
 	case "call_resthook":
